@@ -623,6 +623,36 @@ class Run:
                 self.violations.append({"what": "model behaviour, step %d: %s" % (x["step"], x["why"]), "replay": rp})
         return len(bad)
 
+    # -- the PrimMachine design model and its cases (direction A for C03/C13/C18) -----------------
+    def prim_model_replay(self):
+        r = self.model("MCPrims.tla", "MCPrims.cfg", note="every writer call of the finite family MCPrims!AllCalls followed by the matching reader: ExactWidth, ReadBack, PairRelation, WrapRefused")
+        cases = [parse_tla_string(x) for x in tlc_prints(r["out"], "PRIMCASE")]
+        if not cases:
+            raise Broken("no primitive case exported")
+        vd = self.build()
+        inp = os.path.join(self.scratch, "primcases.ndjson")
+        open(inp, "w").write("\n".join(cases) + "\n")
+        t0 = time.time()
+        p = subprocess.run([vd, "replay-prims", "-in", inp, "-out", inp + ".res"], capture_output=True, text=True, timeout=1800,
+                           env=dict(os.environ, VERIF_SCHEMA=SCHEMA))
+        if p.returncode != 0:
+            raise Broken("replay-prims failed: " + p.stderr[-1500:])
+        results = [json.loads(l) for l in open(inp + ".res")]
+        bad = [x for x in results if x["verdict"] != "ok"]
+        self.cov["replay_runs"].append({"model": "MCPrims.tla/MCPrims.cfg", "cases_exported": len(cases), "cases_replayed": len(results), "mismatches": len(bad),
+                                        "wall_s": round(time.time() - t0, 1)})
+        self.cov["traces_validated_against_impl"] += len(results)
+        self.cov["evaluations"] += 2 * len(results)
+        self.cov["distinct_nontrivial"] += len(set(cases))
+        if len(self.cov["samples"]) < 4:
+            self.cov["samples"].append({"primitive_case": json.loads(cases[len(cases) // 2])})
+        log("  replay MCPrims.cfg              %6d primitive cases (write + read back) executed on the real primitives: mismatches=%d (%.1fs)" %
+            (len(results), len(bad), time.time() - t0))
+        for x in bad[:5]:
+            if len(self.violations) < 5:
+                rp = self.write_replay({"kind": "primcase", "why": x["why"], "case": x["behaviour"]})
+                self.violations.append({"what": "model case: " + x["why"], "replay": rp})
+
     # -- C20 -------------------------------------------------------------------------------------
     def parallel(self, driver, n, goroutines=16, rounds=1, types=None, seed_off=0, small=False):
         """the driver's histories run alone and then by many goroutines at once (race detector on);
